@@ -158,6 +158,8 @@ class World:
         if n == "SimFail":
             def go():
                 st, self.inflight = self.inflight, None
+                if act["kind"] == "undef200":
+                    return self.respond(st, 200, None)
                 return self.respond(st, 502, b"<html><body>Upstream error</body></html>")
             return impl_call(go)
         if n == "Inject":
@@ -327,7 +329,7 @@ def run(chk: Check):
                        "from the replay cache.")
     chk.assumptions += [
         "the viewer has one poll outstanding per region and repeats a poll with the same ack after a lost response",
-        "the simulator never re-sends events and answers 200 only with at least one event",
+        "the simulator never re-sends events; a 200 answer carries at least one event or an undef body",
         "addons swallow only plain events (registration after a swallowed region announcement is left open)",
         "what was owed or queued at a region teardown is dropped with the region; the simulator does not answer a poll "
         "that was outstanding at teardown",
